@@ -1,0 +1,24 @@
+//go:build verif
+// +build verif
+
+// Verification hook H3c (add-only, compiled only with -tags verif): installs the joined-group
+// storage, the miner identity and the network server that the package-global GroupCreateProcessor
+// uses in GetMemberSignPubKey / askSignPK (the node sets them in groupCreateProcessor.Init, which
+// also needs the booted chains). No behaviour of existing code paths changes.
+package group_create
+
+import (
+	"com.tuntun.rangers/node/src/consensus/access"
+	"com.tuntun.rangers/node/src/consensus/model"
+	"com.tuntun.rangers/node/src/consensus/net"
+)
+
+// VerifC15Install sets the three fields GetMemberSignPubKey reads, and forgets earlier
+// sign-public-key requests so that askSignPK reaches the network server again.
+func VerifC15Install(self model.SelfMinerInfo, storage *access.JoinedGroupStorage, ns net.NetworkServer) {
+	VerifInitLoggers()
+	GroupCreateProcessor.minerInfo = self
+	GroupCreateProcessor.joinedGroupStorage = storage
+	GroupCreateProcessor.NetServer = ns
+	recordMap.Range(func(k, _ interface{}) bool { recordMap.Delete(k); return true })
+}
